@@ -312,6 +312,10 @@ def run(prop, tier, params, t0):
         ev2 = read_ndjson(nd2)
         keys_c, nonconfs_c, _, _ = judge(prop, nd2, prop + "_crash")
         for k, info in keys_c.items():
+            if not k.split(":")[0].endswith("/crash"):
+                # the prefix and the complete run of the operation are driven differently here (no separate
+                # refresh before a cancel): only the interrupted runs are judged in this part
+                continue
             b = info["behaviour"]
             info["case"] = cases[b] if isinstance(b, int) and b < len(cases) else None
             info["setup"] = setup
